@@ -376,7 +376,7 @@ Qed.
 
 Lemma trim_space_plain s : forallb plain s = true -> trim_space s = s.
 Proof.
-  intro H. unfold trim_space, trim_right.
+  intro H. unfold trim_space, trim_right, frev. rewrite <- !rev_alt.
   assert (E : trim_left s = s).
   { destruct s as [|a r]; [reflexivity|]. cbn in H. apply andb_true_iff in H as [H _].
     now apply trim_left_plain. }
